@@ -38,6 +38,11 @@ Api == {[shape |-> "api", tgt |-> t, where |-> w, order |-> o, lim |-> l] :
 \* a CTE named like a real table of another (or the same) integration that the statement also uses, qualified
 CteShadow == {[shape |-> "cteshadow", use |-> u, inner |-> i] : u \in {"join", "insub", "own-source", "join-t3", "join-default"}, i \in {"none", "b>1"}}
 Nested == {[shape |-> "nested", kind |-> k, where |-> w, inner |-> i] : k \in {"inner", "left"}, w \in {"none", "t2c=1", "sb=1"}, i \in {"none", "b=1", "limit1"}}
+\* comma joins: the join condition (if there is one) lives in WHERE -- as a top-level conjunct, under OR, under NOT, as an
+\* inequality, or not at all (a cross product); two and three tables of two integrations
+Implicit == {[shape |-> "implicit", n |-> n, where |-> w, tgt |-> t] : n \in {2, 3}, t \in {"star", "cols", "count"},
+               w \in {"none", "t1a=t2a", "t1a=t2a&t2c=1", "t1a=t2a|t2c=1", "not-t1a=t2a", "t1b=1&t1a=t2a", "t1b=1", "t2c=1|t1b=1",
+                      "t1a<t2a", "t2a=t1a&not-t2c=1", "(t1a=t2a|t1b=1)&t2c=1", "t1a=t2a&t1b=t2c", "t1a=t2c|t1b=t2a"}}
 Scalar == {[shape |-> "scalar", f |-> f, cmp |-> o] : f \in {"max", "min", "count"}, o \in {"=", ">"}}
 
 \* single-integration family (C11): everything lives in int1
@@ -49,7 +54,7 @@ Single == {[shape |-> "single", body |-> b, alias |-> a] :
                     "long-in-list-late-column-18", "long-in-list-late-column-70", "many-targets-late-qualified"},
              a \in {"none", "table-alias", "alias-is-integration-name", "column-named-like-integration", "qualified-columns"}}
 
-Cases == IF Family = "federated" THEN Join2 \cup Join3 \cup InSub \cup SetOp \cup SetOp3 \cup Cte \cup CteShadow \cup Api \cup Nested \cup Scalar ELSE Single
+Cases == IF Family = "federated" THEN Join2 \cup Join3 \cup InSub \cup SetOp \cup SetOp3 \cup Cte \cup CteShadow \cup Api \cup Nested \cup Scalar \cup Implicit ELSE Single
 Init == c \in Cases
 Next == UNCHANGED c
 Spec == Init /\ [][Next]_c
